@@ -44,6 +44,8 @@ def run(prog, rep, tier):
     apply(rep, "R4", "origin/chain/layout pairing", r_stream.r4(prog), 17)
     apply(rep, "R5", "per-input accumulators reset on new input", r_stream.r5(prog), 3)
     apply(rep, "R7", "`no stack` is returned only when the upstream pull returned none", r_stream.r7(prog), 60)
+    import r_lex
+    apply(rep, "N6", "every %( ... %) splice of a literal is delimited on its own, whatever the previous splice contained (scanner simulated)", r_lex.n6(prog), 2)
     r8 = r_stream.r8(prog)
     apply(rep, "R8", "values cached in the execution state for the current input are not left moved-from", r8, 1)
     if not getattr(r8, "broken", None) and [i for i in r8[0] if i[0] == "R8:functions-with-state-references"][0][1]["scanned"] < 25:
